@@ -92,9 +92,9 @@ UnboundedInputs == {"request_head_line", "connect_rejection_body", "request_meth
 MemoryBoundMiB == 24
 
 \* Listener: what a crowd of clients that connect and stay does to the process - it runs out of file descriptors and accept
-\* fails (EMFILE, ENFILE) - or a connection that is aborted while it waits to be accepted (ECONNABORTED). The fault passes; the
-\* proxy must not "stop ... serving other connections": clients that come afterwards are served (command c12-accept).
-ListenerFaults == {"emfile", "enfile", "econnaborted"}
+\* fails (EMFILE, ENFILE). The fault passes; the proxy must not "stop ... serving other connections": clients that come
+\* afterwards are served (command c12-accept).
+ListenerFaults == {"emfile", "enfile"}
 ListenerOutcome == [o |-> "served", st |-> {200}]
 
 VARIABLE dummy
